@@ -76,7 +76,5 @@ Theorem C06_reference_trickle_preload : forall (W : nat) (chunks : list bytes), 
   let '(_, loads, st) := drain_all (stream fault b 0) [] [] in
   (Forall (fun x => fault x = None) (tl (preorder b)) -> st = StEOF /\ loads = tl (preorder b))
   /\ ((exists x, In x (tl (preorder b)) /\ fault x <> None) -> exists e, st = StErr e).
-Proof.
-  intros W chunks HW Hne Hs Hb b fault. destruct (trickle_qualifies W chunks HW Hne Hs Hb) as [H1 H2]. exact (preload_file fault b H1 H2).
-Qed.
+Proof. exact trickle_preload. Qed.
 Print Assumptions C06_reference_trickle_preload.
